@@ -271,7 +271,8 @@ func addrClasses(e *domEnv, who *world.Account, thorough bool) [][2]string {
 	}
 	if thorough {
 		zero, _ := bech32.ConvertAndEncode("panacea", []byte{})
-		c = append(c, [2]string{"garbage", "abc"}, [2]string{"zero-bytes", zero}, [2]string{"leading-space", " " + who.Bech}, [2]string{"mixedcase", strings.ToUpper(who.Bech[:10]) + who.Bech[10:]},
+		c = append(c, [2]string{"garbage", "abc"}, [2]string{"zero-bytes", zero}, [2]string{"leading-space", " " + who.Bech},
+			[2]string{"trailing-space", who.Bech + " "}, [2]string{"only-space", " "}, [2]string{"tab-newline", "\t\n"}, [2]string{"trailing-newline", who.Bech + "\n"}, [2]string{"mixedcase", strings.ToUpper(who.Bech[:10]) + who.Bech[10:]},
 			[2]string{"len1", mk(1)}, [2]string{"valoper", sdk.ValAddress(who.Addr).String()})
 	}
 	return c
@@ -333,7 +334,7 @@ func allDomains(e *domEnv, thorough bool) []*msgDom {
 			x := m.(*aoltypes.MsgDeleteWriterRequest)
 			return refTopic(x.TopicName) && refAddr(x.WriterAddress) && refAddr(x.OwnerAddress)
 		}})
-	fpClasses := append([][2]string{{"absent", ""}}, addrClasses(e, e.F, false)...)
+	fpClasses := append([][2]string{{"absent", ""}}, addrClasses(e, e.F, thorough)...)
 	// drop the duplicate "empty" class of addrClasses (same value as absent)
 	var fp [][2]string
 	for _, c := range fpClasses {
@@ -361,7 +362,7 @@ func allDomains(e *domEnv, thorough bool) []*msgDom {
 	ds = append(ds, didDomains(e, thorough)...)
 
 	// PNFT
-	idC := [][2]string{{"valid", "d"}, {"empty", ""}, {"nul", "d\x00x"}, {"len300", rep("i", 300)}}
+	idC := [][2]string{{"valid", "d"}, {"empty", ""}, {"nul", "d\x00x"}, {"len300", rep("i", 300)}, {"nul-first", "\x00d"}, {"nul-last", "d\x00"}, {"only-nul", "\x00"}}
 	nameC := [][2]string{{"valid", "n"}, {"empty", ""}}
 	optC := [][2]string{{"empty", ""}, {"set", "v"}, {"len5001", rep("v", 5001)}}
 	ds = append(ds, &msgDom{Name: "pnft.MsgCreateDenomRequest", New: func() sdk.Msg { return &pnfttypes.MsgCreateDenomRequest{} }, Signers: sA,
@@ -412,7 +413,7 @@ func allDomains(e *domEnv, thorough bool) []*msgDom {
 	ds = append(ds, &msgDom{Name: "pnft.MsgMintPNFTRequest", New: func() sdk.Msg { return &pnfttypes.MsgMintPNFTRequest{} }, Signers: sA,
 		Fields: []fdom{
 			strField("denom", func(m sdk.Msg, v string) { m.(*pnfttypes.MsgMintPNFTRequest).DenomId = v }, idC...),
-			strField("id", func(m sdk.Msg, v string) { m.(*pnfttypes.MsgMintPNFTRequest).Id = v }, [][2]string{{"valid", "t"}, {"empty", ""}, {"nul", "x\x00t"}, {"len300", rep("i", 300)}}...),
+			strField("id", func(m sdk.Msg, v string) { m.(*pnfttypes.MsgMintPNFTRequest).Id = v }, [][2]string{{"valid", "t"}, {"empty", ""}, {"nul", "x\x00t"}, {"len300", rep("i", 300)}, {"nul-first", "\x00t"}, {"nul-last", "t\x00"}}...),
 			strField("name", func(m sdk.Msg, v string) { m.(*pnfttypes.MsgMintPNFTRequest).Name = v }, nameC...),
 			strField("description", func(m sdk.Msg, v string) { m.(*pnfttypes.MsgMintPNFTRequest).Description = v }, optC...),
 			strField("data", func(m sdk.Msg, v string) { m.(*pnfttypes.MsgMintPNFTRequest).Data = v }, optC[:2]...),
